@@ -126,13 +126,13 @@ def run(ctx):
     import gen_radii
     broken = []
     # 1. translator + proof
-    terr = common.regen(ctx, ("radii", "dim_rule"))
+    terr = common.regen(ctx, ("radii", "dim_rule", "sbc_rule"))
     if terr:
         for t in THEOREMS:
             ctx.obligations.append((t, False))
         broken.append(("translator", terr))
     else:
-        ok, info = prove(ctx, "MatidProps.C19", THEOREMS)
+        ok, info = prove(ctx, "MatidProps.C19", THEOREMS + ["Matid.Props.C13.constructors_forward_radii"], extra_imports=("MatidProps.C13",), gen_targets=("MatidProps.C13",))
         if not ok:
             broken.append(("proof", info))
     # 2. correspondence: model (as generated) vs real function, exhaustive
